@@ -392,10 +392,10 @@ M("c18-floor-unguarded", ["C04", "C18"], CX,
 M("c17-array-length-unvalidated", ["C04", "C17"], CX,
   "                arr = JSArray(_array_length(args[0]))", "                arr = JSArray(int(args[0]))",
   [("C04", "C04-R2", "array_constructor"), ("C17", "C17-R2", "array_constructor")])
-M("c20-test-ignores-sticky", ["C20"], RR,
-  "            if result:\n                if self._global or self._sticky:\n                    self.lastIndex = (\n                        result.index + len(result[0]) if result[0] else result.index\n                    )\n                return True\n            if self._global or self._sticky:\n                self.lastIndex = 0\n            return False",
-  "            if result:\n                if self._global:\n                    self.lastIndex = (\n                        result.index + len(result[0]) if result[0] else result.index\n                    )\n                return True\n            if self._global:\n                self.lastIndex = 0\n            return False",
-  [("C20", "C20-R2", "sticky")])
+M("c20-exec-ignores-sticky", ["C20"], RR,
+  "            if self._global or self._sticky:\n                self.lastIndex = 0\n            return None\n",
+  "            if self._global:\n                self.lastIndex = 0\n            return None\n",
+  [("C20", "C20-R8", "RegExp:y:reset")], note="the sticky failure exit no longer resets lastIndex")
 M("c20-exec-no-copy-back", ["C20"], VA,
   "        result = self._internal.exec(string)\n        self._store_last_index()\n", "        result = self._internal.exec(string)\n",
   [("C20", "C20-R1", "JSRegExp.exec")])
@@ -409,8 +409,8 @@ M("c20-split-empty-match-spins", ["C20", "C01"], VM,
   "                        pos = last_end\n",
   [("C20", "C20-R3$", "split"), ("C01", "C01-R8$", "split")])
 M("c01-in-walk-no-advance", ["C01"], VM,
-  "                if current.has(key_str):\n                    found = True\n                    break\n                current = current._prototype",
-  "                if current.has(key_str):\n                    found = True\n                    break\n                if current._prototype is not None:\n                    current = current._prototype",
+  "                    found = True\n                    break\n                current = current._prototype\n            self.stack.append(found)",
+  "                    found = True\n                    break\n                if current._prototype is not None:\n                    current = current._prototype\n            self.stack.append(found)",
   [("C01", "C01-R8$", "isinstance")])
 
 # ------------------------------------------------------------------ twins (must stay silent)
@@ -539,7 +539,7 @@ S("seed-C14-a", ["C14"], "seeded/C14-a/patch.diff", [("C14", "C14-R1", "16-bit")
 S("seed-C15-a", ["C05"], "seeded/C15-a/patch.diff", [("C05", "C05-R10", "num_locals")], silent=["C15"], note="obsolete as a C15 seed since fix cceea8f (sorted slot numbers): the positional fill now misbehaves identically under every hash seed, a C05 defect")
 # seed-C16-a is obsolete: the three template expansions it merged were replaced by expand_replacement (fix 5f9722b)
 M("c16-template-expanded-by-replace-passes", ["C16", "C20"], VM,
-  "                    repl = expand_replacement(replacement, search, idx, s, [])\n",
+  "                    repl = replacement_for(replacer, replacement, search, [], idx)\n",
   "                    repl = replacement.replace(\"$$\", \"\\x00\").replace(\"$&\", search).replace(\"\\x00\", \"$\")\n",
   [("C16", "C16-R8", "replace"), ("C20", "C20-R7", "replace")], note="fix 5f9722b reverted for string patterns")
 S("seed-C17-a", ["C17"], "seeded/C17-a/patch.diff", [("C17", "C17-R8", "field-alias")], silent=["C04"], note="C04 must stay silent")
@@ -698,7 +698,7 @@ T("t-fp-parser-paren-depth-truthiness", ["C04"], PA,
   "            if not paren_depth:\n                # The first paren was an arrow function")
 S("seed-C10-b", ["C10"], "seeded/C10-b/patch.diff", [("C10", "C10-R5", "_count_capture_groups:while")], silent=[], note="pre-scan loop adds 1 to a str.find result that may be -1")
 S("seed-C17-b", ["C17"], "seeded/C17-b/patch.diff", [("C17", "C17-R10", "reduce_fn:alias-across-callback")], silent=["C04"], note="local alias of arr._elements kept across the callback")
-S("seed-C03-b", ["C03"], "seeded/C03-b/patch.diff", [("C03", "C03-R7", "handle_replacement")], note="capture groups passed to the replacer un-normalised (None)")
+# seed-C03-b (and C03-d, same idea) are obsolete: replace() calls replacer functions itself since fix b54eda3; the slip lives on as mutant c03-replacer-gets-raw-captures
 S("seed-C08-b", ["C08"], "seeded/C08-b/patch.diff", [("C08", "C08-R8", "_execute_opcode:typeof")], note="typeof-based objectness test accepts null")
 M("c15-cells-indexed-by-wrong-table", ["C05"], VM,
   "                            idx = frame.func.free_vars.index(var_name)\n                            closure_cells.append(frame.closure_cells[idx])",
@@ -961,3 +961,19 @@ M("c08-chain-wide-getter-first", ["C08"], VM,
   "            holder: Optional[JSObject] = obj\n            while holder is not None:\n                getter = holder._getters.get(key_str)\n                if getter is not None:\n                    return self._invoke_getter(getter, obj)\n",
   "            getter = obj.get_getter(key_str)\n            if getter is not None:\n                return self._invoke_getter(getter, obj)\n            holder: Optional[JSObject] = obj\n            while holder is not None:\n",
   [("C08", "C08-R14", "_get_property")], note="fix 0f27ed1 reverted on the read path: inherited accessors answer before own data")
+S("seed-C02-e", ["C02", "C05"], "seeded/C02-e/patch.diff", [("C02", "C02-R6", "finally-rethrow"), ("C05", "C05-R3", "finally-rethrow")], note="extract-method of the try handling in the leave code; `continue` skips the POPs of the pseudo-contexts that hold operands")
+TP("t-leave-try-extracted", ALL_PROPS, "selftest/patches/t-leave-try-extracted.diff", note="the same extraction without the early continue (repaired C02-e)")
+S("seed-C07-e", ["C07", "C02"], "seeded/C07-e/patch.diff", [("C07", "C07-R2", "ReturnStatement"), ("C02", "C02-R8", "ReturnStatement")], note="return emits TRY_END only for try statements with their own finally")
+S("seed-C10-d", ["C10", "C09"], "seeded/C10-d/patch.diff", [("C10", "C10-R8", "_run_lookbehind"), ("C09", "C09-R5", "_run_lookbehind")], note="width-bounded lookbehind scan with an unclamped far bound (second author, same slip as C09-d)")
+S("seed-C12-d", ["C12"], "seeded/C12-d/patch.diff", [("C12", "C12-R6", "_running"), ("C12", "C12-R3", "_running")], note="current-VM bookkeeping in a context manager that restores after a bare yield")
+S("seed-C05-e", ["C05"], "seeded/C05-e/patch.diff", [("C05", "C05-R4b", "SwitchStatement.cases")], note="var-declaration pre-pass walks a table of compound statements that lacks SwitchCase")
+TP("t-var-decls-statement-walk", ALL_PROPS, "selftest/patches/t-var-decls-statement-walk.diff", note="the same statement-only walk with SwitchCase in the table (repaired C05-e)")
+S("seed-C17-d", ["C17"], "seeded/C17-d/patch.diff", [("C17", "C17-R19", "lastIndexOf_fn")], note="one clamping helper for every relative index, the backward search of lastIndexOf included", silent=("C16",))
+TP("t-relative-index-helper", ALL_PROPS, "selftest/patches/t-relative-index-helper.diff", note="the same helper at the six forward positions; lastIndexOf keeps its unclamped start (repaired C17-d)")
+M("c17-lastindexof-start-clamped", ["C17"], VM,
+  "            if start < 0:\n                start = len(arr._elements) + start\n            for i in range(min(start, len(arr._elements) - 1), -1, -1):",
+  "            if start < 0:\n                start = len(arr._elements) + start\n            start = max(0, start)\n            for i in range(min(start, len(arr._elements) - 1), -1, -1):",
+  [("C17", "C17-R19", "lastIndexOf_fn")], note="the same slip without a helper")
+M("c03-replacer-gets-raw-captures", ["C03"], VM,
+  "            captures = [UNDEFINED if g is None else g for g in groups]\n", "            captures = list(groups)\n",
+  [("C03", "C03-R7", "match_result")], note="the replacer function receives None for a group that did not participate (the slip of seeds C03-b and C03-d)")
